@@ -325,7 +325,11 @@ impl Datamodel for VDm {
         self.log.push(TOK_EV + code);
     }
     fn assign(&mut self, _l: &Data, _r: &Data) -> bool { true }
-    fn get_by_location(&mut self, _l: &str) -> Result<DataArc, String> { Err(String::new()) }
+    fn get_by_location(&mut self, _l: &str) -> Result<DataArc, String> {
+        // like the real datamodels: an invalid location places error.execution on the internal queue
+        self.g.lock().unwrap().enqueue_internal(Event::error_execution(&None, &None));
+        Err(String::new())
+    }
     fn clear(&mut self) {}
     fn log(&mut self, _m: &str) {}
     fn execute(&mut self, s: &Data) -> Result<DataArc, String> {
